@@ -317,8 +317,11 @@ func verifLemmaProgress(g *Graph, t *Task) {}
 //@ spec replayInv(g *Graph) bool = wfMaps(g) && wfDeps(g) && wfTasks(g) && freshGraph(g) && tombExcluded(g)
 //@ spec rdepsWf(g *Graph) bool =
 //@     (forall t string :: has(g.RDeps, t) ==> g.RDeps[t] != nil && fresh(g.RDeps[t]) && allocated(g.RDeps[t])) &&
-//@     (forall f string, t string :: has(g.Deps, f) && has(g.RDeps, t) ==> g.Deps[f] != g.RDeps[t])
+//@     (forall f string, t string :: has(g.Deps, f) && has(g.RDeps, t) ==> g.Deps[f] != g.RDeps[t]) &&
+//@     (forall t string, u string :: has(g.RDeps, t) && has(g.RDeps, u) && t != u ==> g.RDeps[t] != g.RDeps[u])
 
+//@ spec redge(g *Graph, x string, f string) bool = has(g.RDeps, x) && has(g.RDeps[x], f)
+//@ spec dedge(g *Graph, f string, x string) bool = has(g.Deps, f) && has(g.Deps[f], x)
 //@ spec isResultFor(e Event, k string) bool =
 //@     e.Type == "result" && decOK_ResultEvent(content(e.Data)) && dec_ResultEvent(content(e.Data)).TaskID == k &&
 //@     parseOK(dec_ResultEvent(content(e.Data)).TS)
@@ -334,6 +337,9 @@ func verifLemmaProgress(g *Graph, t *Task) {}
 //@   ensures [wf] err == nil ==> wfMaps(ret0) && wfDeps(ret0) && wfTasks(ret0)
 //@   ensures [tomb-excluded] err == nil ==> tombExcluded(ret0)
 //@   ensures [fresh] err == nil ==> freshGraph(ret0)
+//@   ensures [rdeps-mirror] err == nil ==> (forall f string, x string :: dedge(ret0, f, x) <==> redge(ret0, x, f))
+//@   ensures [task-deps] err == nil ==> (forall k string, x string :: has(ret0.Tasks, k) ==>
+//@        (contains(ret0.Tasks[k].Deps, x) <==> dedge(ret0, k, x)) && (contains(ret0.Tasks[k].RDeps, x) <==> redge(ret0, k, x)))
 //@   modifies nothing
 //@ loop 0 range events
 //@   invariant [wf] wfMaps(graph) && wfDeps(graph) && wfTasks(graph)
@@ -373,12 +379,23 @@ func verifLemmaProgress(g *Graph, t *Task) {}
 //@   invariant [inv] replayInv(graph)
 //@   invariant [rdeps] rdepsWf(graph)
 //@   invariant [deps-kept] forall f string :: has(graph.Deps, f) ==> sameMapAsEntry(graph.Deps[f])
+//@   invariant [mirror-fwd:rdeps,deps-kept] forall f string, x string :: visited(f) && dedge(graph, f, x) ==> redge(graph, x, f)
+//@   invariant [mirror-bwd:rdeps,deps-kept] forall x string, f string :: redge(graph, x, f) ==> dedge(graph, f, x)
 //@ loop 2 range deps
 //@   invariant [inv] replayInv(graph)
 //@   invariant [rdeps] rdepsWf(graph)
 //@   invariant [deps-kept] forall f string :: has(graph.Deps, f) ==> sameMapAsEntry(graph.Deps[f])
+//@   invariant [cur] has(graph.Deps, from) && graph.Deps[from] == deps && graph.Deps != graph.RDeps
+//@   invariant [mirror-grows:rdeps,deps-kept] forall x string, f string :: atentry(redge(graph, x, f)) ==> redge(graph, x, f)
+//@   invariant [mirror-inner:rdeps,deps-kept,cur,inv] forall x string :: visited(x) && has(deps, x) ==> redge(graph, x, from)
+//@   invariant [mirror-bwd:rdeps,deps-kept,cur,inv] forall x string, f string :: redge(graph, x, f) ==> dedge(graph, f, x)
 //@ loop 3 range graph.Tasks
 //@   invariant [fresh] freshGraph(graph)
+//@   invariant [inv3] wfMaps(graph) && wfTasks(graph) && rdepsWf(graph)
+//@   invariant [mirror-kept] forall f string, x string :: dedge(graph, f, x) <==> redge(graph, x, f)
+//@   invariant [slices-allocated] forall k string :: visited(k) && has(graph.Tasks, k) ==> allocated(graph.Tasks[k].Deps) && allocated(graph.Tasks[k].RDeps)
+//@   invariant [task-deps:inv3,fresh,slices-allocated,mirror-kept] forall k string, x string :: visited(k) && has(graph.Tasks, k) ==>
+//@        (contains(graph.Tasks[k].Deps, x) <==> dedge(graph, k, x)) && (contains(graph.Tasks[k].RDeps, x) <==> redge(graph, k, x))
 
 // ---- lock protocol as ghost state (C01, C02, C10) ----
 // lk: 0 = not held, 1 = shared, 2 = exclusive (the values of LOCK_SH and LOCK_EX).
